@@ -2,8 +2,9 @@
    Statements over core/Manager.v (model of pysmt.formula.FormulaManager); proofs in
    proofs/Manager_proofs.v.  [reachable s]: s is an environment of a world reached from fresh
    environments by ANY list of requests (any interleaving, any address order).
-   Clauses the faithful model falsifies are stated as [_refuted] witnesses (replayed on the
-   implementation by harness/c04.py). *)
+   The one clause the faithful model still falsifies (order of array-value assignments in a copy)
+   is stated as a [_refuted] witness, replayed on the implementation by harness/c04.py; the
+   clauses repaired by commits 3ff3f2b / 7843d1b are now positive theorems. *)
 From Coq Require Import List ZArith Bool String.
 From PySMT.core Require Import Syntax PyPrims Manager.
 From PySMT.proofs Require Import Manager_proofs.
@@ -44,19 +45,22 @@ Theorem C04_ctor_route_indep_stable : forall addr srcs s r s' rp i, reachable s 
   step addr srcs s r = (s', rp) -> valid (table s) i -> unfold s' i = unfold s i /\ valid (table s') i.
 Proof. exact unfold_stable. Qed.
 Print Assumptions C04_ctor_route_indep_stable.
-(* ... but the OUTCOME of a call with an undocumented spelling depends on the history *)
-Theorem C04_int_spelling_route_refuted :
-  exists (before1 before2 : list request) (r : request),
-    snd (step1 (addr_id 0) (run1 (addr_id 0) before1) r) = Err ETyp /\
-    snd (step1 (addr_id 0) (run1 (addr_id 0) before2) r) = Ok 3.
-Proof. exact int_spelling_route_refuted. Qed.
-Print Assumptions C04_int_spelling_route_refuted.
-Theorem C04_real_bool_route_refuted :
-  exists (before1 before2 : list request) (r : request),
-    snd (step1 (addr_id 0) (run1 (addr_id 0) before1) r) = Err ETyp /\
-    snd (step1 (addr_id 0) (run1 (addr_id 0) before2) r) = Ok 3.
-Proof. exact real_bool_route_refuted. Qed.
-Print Assumptions C04_real_bool_route_refuted.
+(* ... and the outcome of Int(v) / Real(v) - the exception, or the tree of the node returned - is a
+   function of the spelling v alone, whatever was built before (type test before the cache) *)
+Theorem C04_int_route_indep : forall s v, reachable s ->
+  match int_spec v with
+  | Ok t => exists s' i, int v s = (s', Ok i) /\ valid (table s') i /\ unfold s' i = t
+  | Err e => int v s = (s, Err e)
+  end.
+Proof. exact int_route_indep. Qed.
+Print Assumptions C04_int_route_indep.
+Theorem C04_real_route_indep : forall s v, reachable s ->
+  match real_spec v with
+  | Ok t => exists s' i, real v s = (s', Ok i) /\ valid (table s') i /\ unfold s' i = t
+  | Err e => real v s = (s, Err e)
+  end.
+Proof. exact real_route_indep. Qed.
+Print Assumptions C04_real_route_indep.
 
 (* constant spellings: same object iff same value (and width) *)
 Theorem C04_const_spelling_int : forall s z1 z2 s1 s2 i1 i2, reachable s ->
@@ -67,8 +71,7 @@ Theorem C04_const_spelling_string : forall s z1 z2 s1 s2 i1 i2, reachable s ->
   str (PyStr z1) s = (s1, Ok i1) -> str (PyStr z2) s1 = (s2, Ok i2) -> (i1 = i2 <-> z1 = z2).
 Proof. exact string_spelling. Qed.
 Print Assumptions C04_const_spelling_string.
-Theorem C04_const_spelling_real : forall s v1 v2 s1 s2 i1 i2, reachable s -> wf_keys s ->
-  wf_spelling v1 -> wf_spelling v2 ->
+Theorem C04_const_spelling_real : forall s v1 v2 s1 s2 i1 i2, reachable s ->
   real v1 s = (s1, Ok i1) -> real v2 s1 = (s2, Ok i2) -> (i1 = i2 <-> real_val v1 = real_val v2).
 Proof. exact real_spelling. Qed.
 Print Assumptions C04_const_spelling_real.
@@ -86,13 +89,28 @@ Theorem C04_array_canonical : forall (addr : id -> Z) d (m1 m2 : list (id * id))
 Proof. exact array_canonical. Qed.
 Print Assumptions C04_array_canonical.
 
-(* cross-environment copy: the two clauses the faithful model falsifies *)
-Theorem C04_normalize_total_refuted :
-  exists (h : list (nat * request)) (i : id),
-    let '(w, rps) := wrun addr_id (winit 2) h in
-    nth_error rps 0 = Some (Ok i) /\ nth_error rps 1 = Some (Err EOth).
-Proof. exact normalize_total_refuted. Qed.
-Print Assumptions C04_normalize_total_refuted.
+(* cross-environment copy.  Sorts are copied as they are (TypeManager.normalize after 3ff3f2b) *)
+Theorem C04_tnorm_total : forall t, tnorm t = Some t.
+Proof. exact tnorm_total. Qed.
+Print Assumptions C04_tnorm_total.
+(* a symbol of any sort - nested parametric sorts included - is copied unless its name is taken *)
+Theorem C04_normalize_symbol_total : forall addr src s2 i n t, reachable s2 ->
+  node_tb src i = Some (OSymbol n t, []) -> n <> ""%string -> sym_get n (symbols s2) = None ->
+  exists s2' j, normalize addr src i s2 = (s2', Ok j) /\ unfold s2' j = TSym n t /\ valid (table s2') j.
+Proof. exact normalize_symbol_total. Qed.
+Print Assumptions C04_normalize_symbol_total.
+(* the copy: same tree, every node reached from it is in the target table, the target's own
+   nodes are untouched.  [copyable]: no array value inside, every node a fixed point of its
+   constructor's normalisation (what the public constructors build; checked on every node of
+   every history by the correspondence) *)
+Theorem C04_normalize_copy : forall addr s1 s2 i s2' j, reachable s1 -> reachable s2 ->
+  normalize addr (table s1) i s2 = (s2', Ok j) -> copyable (unfold s1 i) ->
+  unfold s2' j = unfold s1 i /\
+  (forall k, reach (table s2') j k -> valid (table s2') k) /\
+  (forall k, valid (table s2) k -> unfold s2' k = unfold s2 k) /\ Inv s2'.
+Proof. exact normalize_copy. Qed.
+Print Assumptions C04_normalize_copy.
+(* with array values the copy is exact only up to the order of the assignments *)
 Theorem C04_normalize_copy_array_order_refuted :
   exists (h : list (nat * request)) (i j : id),
     let '(w, rps) := wrun addr_id (winit 2) h in
